@@ -24,20 +24,22 @@ import gen_designs
 import nlx
 
 RULE = ("(a) one design per operand width pair (wa, wb) <= 4 (quick) / 6 (thorough) carrying every word-level "
-        "op (+ - * < > = x c s & | ^ n ~) at full result width, lowered by the real synthesize (merge_io_vectors "
+        "op (+ - * < > = x c s & | ^ n ~) at full result width AND its operand-order twin over the same wires (b-a, b<a, "
+        "b>a, select(s,b,a), concat(b,a), ...), lowered by the real synthesize (merge_io_vectors "
         "alternating) and stepped through EVERY (x, y, s): a case = (wa, wb, x, y, s); (a') hand-built nets whose "
         "destination is narrower than the natural result, every legal destination width, arguments <= 3 (quick) / 4 "
         "bits, exhaustive values; (b) seeded random API-built designs (max width 8; every fifth up to 33 bits "
         "without *; registers with non-zero reset values, memories with initial contents, ROMs) x initial state x "
         "input sequence x merge_io_vectors x update_working_block: a case = (design, config), non-trivial when at "
-        "least half of the Outputs toggled or the design has state; plus 16 directed designs in both tiers: 2-3 "
+        "least half of the Outputs toggled or the design has state; plus 18 directed designs in both tiers: 2-3 "
         "memories and a ROM (pairwise different contents via memory_value_map) read through ONE address wire object "
         "(Input / intermediate wire / Register) that is also address and data of write ports; registers with reset "
         "None / explicit 0 / non-zero side by side; ROMs with pad_with_zeros and partial list / sparse-dict romdata "
         "read at every address (a third of the random designs also draw such ROMs); write ports with every kind of "
         "enable (Const 0, Const 1, plain, constants reaching the port through logic, dynamic) read back over a "
         "colliding address history; several memories and a ROM that share one NAME with different initial contents; "
-        "write-only memories (log buffers); on the synthesized block the testbench written against the original is run "
+        "write-only memories (log buffers); declared but unused Inputs / Consts (io_map must cover every original "
+        "I/O wire); on the synthesized block the testbench written against the original is run "
         "under Simulation, FastSimulation and CompiledSimulation (memory_value_map and inspect_mem by ORIGINAL MemBlock, "
         "mid-run and final memory contents per original memory, Sem's final memory as oracle); "
         "each design is additionally "
@@ -131,10 +133,21 @@ def build_ops_design(wa, wb):
     out('xor', a ^ b)
     out('nand', a.nand(b))
     out('not', ~a)
+    # operand-order twins: the same primitive over the SAME wires in swapped order, in one design
+    # (absolute difference a-b / b-a, a<b / b<a, conditional swap select(s,a,b) / select(s,b,a), ...)
+    out('sub_r', b - a)
+    out('lt_r', b < a)
+    out('gt_r', b > a)
+    out('eq_r', b == a)
+    out('sel_r', pyrtl.select(s, b, a))
+    out('cat_r', pyrtl.concat(b, a))
+    out('nand_r', b.nand(a))
     return pyrtl.working_block(), outs, n
 
 
 def expected(name, wa, wb, n, x, y, s):
+    if name.endswith('_r'):     # the twin with swapped operands
+        return expected(name[:-2], wb, wa, n, y, x, s)
     if name == 'add':
         return x + y
     if name == 'sub':
@@ -355,7 +368,7 @@ def part_a(ctx, only=None):
                                         "synthesize(); Simulation().step({'a':%d,'b':%d})" % (wa, wb, nm, x, y)}
                         if got != exp and (nm, 'spec') not in reported:
                             reported.add((nm, 'spec'))
-                            if nm == 'sub' and (got ^ exp) == (1 << n):
+                            if nm in ('sub', 'sub_r') and (got ^ exp) == (1 << n):
                                 sig = 'synthesize:sub-top-bit'
                                 what = ('synthesized a-b at full result width has its top bit inverted '
                                         '(%d-bit %d - %d: expected %d, got %d)' % (n, x, y, exp, got))
@@ -370,8 +383,15 @@ def part_a(ctx, only=None):
                                 reported.add((nm, 'model'))
                                 ctx.model_mismatch('Coq basic_%s and the real synthesized %s disagree at width %d: '
                                                    'x=%d y=%d model=%d real=%d' % (nm, nm, n, x, y, mv, got), rep)
-                        if res is not None and nm == 'sel':
-                            mv = model[('sel', n)][s][y][x]   # _basic_select(s, falsecase=y, truecase=x)
+                        if res is not None and nm.endswith('_r') and nm[:-2] in OPS:
+                            mv = model[(nm[:-2], n)][y][x]
+                            if mv != got and (nm, 'model') not in reported:
+                                reported.add((nm, 'model'))
+                                ctx.model_mismatch('Coq basic_%s (operands swapped) and the real synthesized %s disagree at '
+                                                   'width %d: x=%d y=%d model=%d real=%d' % (nm[:-2], nm, n, x, y, mv, got), rep)
+                        if res is not None and nm in ('sel', 'sel_r'):
+                            # _basic_select(s, falsecase, truecase): select(s, a, b) has truecase a
+                            mv = model[('sel', n)][s][y][x] if nm == 'sel' else model[('sel', n)][s][x][y]
                             if mv != got and (nm, 'model') not in reported:
                                 reported.add((nm, 'model'))
                                 ctx.model_mismatch('Coq basic_select and the real synthesized select disagree at '
@@ -736,14 +756,15 @@ def py_shape_ok(post, merge):
     return True, None
 
 
-N_DIRECTED = 16      # 0-5 shared address wire; 6-7 reset None / 0 / non-zero; 8-9 partial ROMs with pad_with_zeros;
+N_DIRECTED = 18      # 0-5 shared address wire; 6-7 reset None / 0 / non-zero; 8-9 partial ROMs with pad_with_zeros;
                      # 10-11 write ports with constant enables; 12-13 memories sharing one name;
-                     # 14-15 write-only memories (log buffers observed through inspect_mem only)
+                     # 14-15 write-only memories (log buffers observed through inspect_mem only);
+                     # 16-17 declared but unused (reserved / debug) Inputs and Consts
 
 
 DIRECTED_KIND = ['directed-shared-address'] * 3 + ['directed-reset-values', 'directed-partial-roms',
                                                   'directed-constant-write-enables', 'directed-same-name-memories',
-                                                  'directed-write-only-memories']
+                                                  'directed-write-only-memories', 'directed-unused-ports']
 
 
 def build_directed_enables(ctx, k):
@@ -829,6 +850,35 @@ def build_directed_write_only(ctx, k):
     n = 10 if ctx.tier == 'quick' else 20
     inputs = [{'a': rng.randrange(8), 'b': rng.randrange(4), 'en': rng.randrange(2)} for _ in range(n)]
     return d, {}, memmap, inputs
+
+
+def build_directed_unused_ports(ctx, k):
+    """ports the design declares but no net uses (reserved / debug Inputs, a Const nobody reads): the original
+    Simulation insists on a value for every Input each cycle, so the testbench supplies them -- and must keep
+    running unchanged on the synthesized block; io_map must cover EVERY original Input and Output"""
+    rng = ctx.sub_rng('directed-unused', k)
+    pyrtl.reset_working_block()
+    d = gen_designs.Design(pyrtl.working_block())
+    a = pyrtl.Input(3, 'a')
+    dbg = pyrtl.Input(4, 'dbg')        # never used
+    b = pyrtl.Input(2, 'b')
+    rsv = pyrtl.Input(1, 'rsv')        # never used, 1 bit
+    d.inputs = [a, dbg, b, rsv]
+    if k % 2:
+        pyrtl.Const(5, bitwidth=3)     # a constant nobody reads
+    acc = pyrtl.Register(4, 'acc', reset_value=3)
+    acc.next <<= (acc + a)[:4]
+    d.regs.append(acc)
+    o = pyrtl.Output(4, 'o_acc')
+    o <<= acc ^ b.zero_extended(4)
+    o2 = pyrtl.Output(1, 'o_lt')
+    o2 <<= a[:2] < b
+    d.outputs = [o, o2]
+    d.ops = ['+', '^', '<', 'zext']
+    n = 6 if ctx.tier == 'quick' else 12
+    inputs = [{'a': rng.randrange(8), 'dbg': rng.randrange(16), 'b': rng.randrange(4), 'rsv': rng.randrange(2)}
+              for _ in range(n)]
+    return d, {}, {}, inputs
 
 
 def build_directed_same_name(ctx, k):
@@ -945,6 +995,8 @@ def build_directed(ctx, k):
         return build_directed_same_name(ctx, k)
     if k in (14, 15):
         return build_directed_write_only(ctx, k)
+    if k in (16, 17):
+        return build_directed_unused_ports(ctx, k)
     rng = ctx.sub_rng('directed', k)
     pyrtl.reset_working_block()
     d = gen_designs.Design(pyrtl.working_block())
@@ -1032,7 +1084,7 @@ def part_b(ctx, only=None):
     prem_items = []
     for i in (only if only is not None else [-(k + 1) for k in range(N_DIRECTED)] + list(range(n))):
         d, regmap, memmap, inputs = build_case(ctx, i)
-        ctx.count('design_kind', 'random' if i >= 0 else DIRECTED_KIND[min((-i - 1) // 2, 7)])
+        ctx.count('design_kind', 'random' if i >= 0 else DIRECTED_KIND[min((-i - 1) // 2, 8)])
         block = d.block
         outnames = [o.name for o in d.outputs]
         base_rep = {'part': 'b', 'seed': ctx.seed, 'design': i, 'tier': ctx.tier,
